@@ -5,7 +5,6 @@ use std::{
     io::{Seek, SeekFrom, Write},
     marker::PhantomData,
     rc::Rc,
-    sync::{MutexGuard, RwLockReadGuard},
 };
 
 use crate::{
@@ -18,6 +17,7 @@ use crate::{
     meta::Meta,
     node::Node,
     page::{Page, PageID, Pages},
+    sync::{MutexGuard, RwLockReadGuard},
     BucketName,
 };
 
